@@ -164,7 +164,11 @@ def c03_session_table(seed=1, depth=4, sample=None, nchunks=16):
             live = [o for o in opened if o[2]]
             for kk, tk, _ in live[:2]:
                 h.op(f"login @{kk} 0 {hx(tk.so)}")
-                for o in live[:3]: h.op(f"sinfo @{o[0]}")
+                for o in live[:3]:
+                    h.op(f"sinfo @{o[0]}")
+                    # token objects only through read-write sessions, whoever is logged in
+                    c = h.op(f"create @{o[0]} 0={ul(0)} 1=01 2=00 3={hx('w')}"); h.minted += 1
+                    h.op(f"destroy @{o[0]} @{c}")
                 h.op(f"open t:{hx(tk.label)} 4")          # refused while the SO is logged in
                 h.op(f"logout @{kk}")
             h.op("fini")
@@ -611,3 +615,27 @@ def c09_genpair_failures(seed=1):
             h.op(f"destroy @{k} @{g}"); h.op(f"destroy @{k} @{g}.1")
     h.op("fini")
     return h.text()
+
+
+# ---------------------------------------------------------------------------------------------------------
+# C14 (two processes): a re-initialisation by one process stays, whatever an older process writes afterwards
+# ---------------------------------------------------------------------------------------------------------
+def c14_two_process_reinit(seed=1):
+    """Process 0 has the token loaded (no session).  Process 1 re-initialises it (C_InitToken with the SO PIN, a new label) and ends.  Process 0 then opens a session
+    and logs in as SO (which writes token.object).  A FRESH process 2 judges: the new label, no user PIN any more, the SO PIN kept, no objects."""
+    lines, cnt = [], {}
+    def op(i, text):
+        cnt[i] = cnt.get(i, 0) + 1; lines.append(f"P{i} {text}"); return cnt[i]
+    lab, lab2, so, user = hx("first"), hx("second"), hx("so0pin0"), hx("user0pin")
+    op(0, "init"); op(0, "slots"); op(0, f"inittoken free {so} {lab}"); op(0, "slots")
+    k = op(0, f"open t:{lab} 6"); op(0, f"login @{k} 0 {so}"); op(0, f"initpin @{k} {user}"); op(0, f"logout @{k}")
+    op(0, f"login @{k} 1 {user}"); op(0, f"create @{k} 0={ul(0)} 1=01 2=01 3={hx('doomed')} 11=aabb"); op(0, f"logout @{k}"); op(0, f"close @{k}")
+    op(1, "init"); op(1, "slots"); op(1, f"inittoken t:{lab} {so} {lab2}"); op(1, "fini")
+    # `c:`: the slot id process 0 learned earlier - no C_GetTokenInfo in between (that call would re-read token.object)
+    k0 = op(0, f"open c:{lab} 6"); op(0, f"login @{k0} 0 {so}"); op(0, f"logout @{k0}"); op(0, "fini")
+    op(2, "init"); op(2, f"nop expect-label {lab2}"); op(2, "slots")
+    s2 = op(2, f"open t:{lab2} 6")
+    op(2, f"nop expect-login 258"); op(2, f"login @{s2} 1 {user}")
+    op(2, f"nop expect-login 0"); op(2, f"login @{s2} 0 {so}"); op(2, f"logout @{s2}")
+    op(2, "fini")
+    return "\n".join(lines) + "\n"
